@@ -186,6 +186,17 @@ class ISD(model.Document):
 
   def _region_always_has_background(region: typing.Type[model.Region]) -> bool:
 
+    for anim_step in region.iter_animation_steps():
+      if anim_step.style_property in (
+        styles.StyleProperties.Opacity,
+        styles.StyleProperties.Display,
+        styles.StyleProperties.Visibility,
+        styles.StyleProperties.ShowBackground,
+        styles.StyleProperties.BackgroundColor
+      ):
+        # the specified values tested below do not apply while the animation step is active
+        return True
+
     if region.get_style(styles.StyleProperties.Opacity) == 0:
       return False
 
